@@ -1,6 +1,6 @@
 /-
-  Kevo.Proofs.BoundedLast — BoundedIterator.SeekToLast as coded, with an end bound that IS a stored key:
-  Seek(end) lands on it, the iterator is rewound and walked forward to the last key below the bound.
+  Kevo.Proofs.BoundedLast — BoundedIterator.SeekToLast as coded (repaired in 8151b8c): with an end bound the
+  iterator walks forward from the start of the range, remembers the last key below the bound and seeks back to it.
 -/
 import Kevo.Proofs.ScanEngine
 namespace Kevo.Proofs.Merge
@@ -20,34 +20,58 @@ theorem getLast?_cons_eq {α : Type} (a : α) (l : List α) :
     | some x => rfl
     | none => simp at h
 
-/-- the forward walk of SeekToLast returns the key of the last entry below the bound -/
+/-- the forward walk of SeekToLast returns the key of the last entry below the bound (keys non-empty: appending an
+    empty key to a nil slice leaves it nil) -/
 theorem walkBelow_key (O : Ops σ) (hi : Bytes) : ∀ (L : List KV) (fuel : Nat) (c : σ) (lk : Option Bytes),
-    Emits O c L → L.length ≤ fuel →
+    Emits O c L → L.length ≤ fuel → (∀ e ∈ L, e.1 ≠ []) →
     (walkBelow O hi fuel c lk).2 = match (L.takeWhile (fun e => ltB e.1 hi)).getLast? with
       | some e => some e.1
       | none => lk := by
   intro L
   induction L with
   | nil =>
-    intro fuel c lk h _
+    intro fuel c lk h _ _
     have hv : O.valid c = false := h
     cases fuel with
     | zero => rfl
     | succ f => simp [walkBelow, hv]
   | cons e rest ih =>
-    intro fuel c lk h hf
+    intro fuel c lk h hf hne
     cases fuel with
     | zero => simp at hf
     | succ f =>
       have hk := emits_k h
       have h' := emits_cons.mp h
-      simp only [walkBelow, h'.1, hk, Bool.true_and, List.takeWhile_cons]
+      have he : e.1.isEmpty = false := by
+        have := hne e (by simp)
+        cases hh : e.1 with
+        | nil => exact absurd hh this
+        | cons _ _ => rfl
+      simp only [walkBelow, h'.1, hk, Bool.true_and, List.takeWhile_cons, he, Bool.false_and, Bool.false_eq_true, if_false]
       by_cases hp : ltB e.1 hi = true
       · simp only [hp, if_true]
-        rw [ih f _ (some e.1) h'.2.2.2.2.2 (by simpa using hf), getLast?_cons_eq]
+        rw [ih f _ (some e.1) h'.2.2.2.2.2 (by simpa using hf) (fun x hx => hne x (by simp [hx])), getLast?_cons_eq]
         cases (rest.takeWhile (fun e => ltB e.1 hi)).getLast? <;> rfl
       · have hp' : ltB e.1 hi = false := by simpa using hp
         simp [hp']
+
+/-- nothing below the bound at the current position: the walk does not move -/
+theorem walkBelow_stay (O : Ops σ) (hi : Bytes) (L : List KV) (fuel : Nat) (c : σ) (lk : Option Bytes) (h : Emits O c L)
+    (hT : L.takeWhile (fun e => ltB e.1 hi) = []) : walkBelow O hi fuel c lk = (c, lk) := by
+  cases fuel with
+  | zero => rfl
+  | succ f =>
+    cases L with
+    | nil =>
+      have hv : O.valid c = false := h
+      simp [walkBelow, hv]
+    | cons e rest =>
+      have hk := emits_k h
+      have hp : ltB e.1 hi = false := by
+        cases hh : ltB e.1 hi with
+        | false => rfl
+        | true => simp [hh] at hT
+      simp [walkBelow, hk, hp]
 
 /-- a property of the cursor that Next preserves survives the walk -/
 theorem walkBelow_inv (O : Ops σ) (hi : Bytes) (P : σ → Prop) (hP : ∀ c, P c → P (O.next c).1) :
@@ -62,13 +86,18 @@ theorem walkBelow_inv (O : Ops σ) (hi : Bytes) (P : σ → Prop) (hP : ∀ c, P
     · exact ih _ _ (hP c h)
     · exact h
 
+/-- where SeekToLast starts its walk: Seek(start) or SeekToFirst -/
+def rangeStart (O : Ops σ) (lo : Option Bytes) (c : σ) : σ :=
+  match lo with
+  | some l => (O.seek c l).1
+  | none => O.first c
+
 theorem bounded_last_eq (O : Ops σ) (lo : Option Bytes) (e : Bytes) (fuel : Nat) (c : σ) :
     (boundedOps O lo (some e) fuel).last c =
-      if O.valid (O.seek c e).1 && O.k (O.seek c e).1 == e then
-        match (walkBelow O e fuel (O.first (O.seek c e).1) none).2 with
-        | some lk => (O.seek (walkBelow O e fuel (O.first (O.seek c e).1) none).1 lk).1
-        | none => O.first (walkBelow O e fuel (O.first (O.seek c e).1) none).1
-      else (O.seek c e).1 := rfl
+      match (walkBelow O e fuel (rangeStart O lo c) none).2 with
+      | some lk => (O.seek (walkBelow O e fuel (rangeStart O lo c) none).1 lk).1
+      | none => (walkBelow O e fuel (rangeStart O lo c) none).1 := by
+  cases lo <;> rfl
 
 theorem head?_takeWhile {α : Type} (p : α → Bool) (l : List α) : (l.takeWhile p).head? = l.head?.filter p := by
   cases l with
@@ -123,10 +152,10 @@ theorem next_es (f : Nat) (h : Hier) : ((storageOps f).next h).1.srcs.map (·.es
     exact hskip _ _ s
   · rfl
 
-/-- (d) SeekToLast of the range iterator when the end bound is a stored (merged) key: the greatest merged key in
-    [lo, end) -/
-theorem bounded_last_end_present (srcs : List (List KV)) (hok : SourcesOK srcs) (lo : Option Bytes) (e : Bytes) (v : Option Bytes)
-    (hmem : (e, v) ∈ mergeSpec srcs) (fuel : Nat) (h : Hier) (hO : h.srcs.map (·.es) = srcs) (hf : total srcs + 1 ≤ fuel) :
+/-- (d) SeekToLast of the range iterator with an end bound (any bound, stored or not): the greatest merged key in
+    [lo, end), invalid iff there is none -/
+theorem bounded_last_end (srcs : List (List KV)) (hok : SourcesOK srcs) (hne : ∀ x ∈ mergeSpec srcs, x.1 ≠ [])
+    (lo : Option Bytes) (e : Bytes) (fuel : Nat) (h : Hier) (hO : h.srcs.map (·.es) = srcs) (hf : total srcs + 1 ≤ fuel) :
     let B := bOps lo (some e) fuel
     let h' := B.last h
     (if B.valid h' then some (B.k h', B.val h') else none) =
@@ -134,112 +163,92 @@ theorem bounded_last_end_present (srcs : List (List KV)) (hok : SourcesOK srcs) 
   intro B h'
   have hasc := mergeSpec_asc srcs
   have hlen := length_mergeSpec_le hok
-  -- Seek(end) lands on the end key
-  have hs1 := storage_seek_collect srcs hok fuel (total srcs + 1) h hO e (by omega) (by omega)
-  have hhead1 := emits_head hs1
-  rw [show (fun y : KV => !ltB y.1 e) = (fun y : KV => !ltB y.1 (e, v).1) from rfl, head_filter_ge hasc hmem] at hhead1
-  have hv1 : (storageOps fuel).valid ((storageOps fuel).seek h e).1 = true := by
-    cases hv : (storageOps fuel).valid ((storageOps fuel).seek h e).1 with
-    | true => rfl
-    | false => rw [hv] at hhead1; simp at hhead1
-  have hk1 : (storageOps fuel).k ((storageOps fuel).seek h e).1 = e := by
-    rw [hv1] at hhead1
-    simp only [if_true, Option.some.injEq, Prod.mk.injEq] at hhead1
-    exact hhead1.1
-  -- rewind and walk
-  let c1 := ((storageOps fuel).seek h e).1
-  have hO1 : c1.srcs.map (·.es) = srcs := by rw [seek_es]; exact hO
-  have hfirst := storage_first_emits srcs fuel (total srcs + 1) c1 hO1 (by omega) (by omega)
-  rw [mergeRun_eq_mergeSpec hok (Nat.lt_succ_self _)] at hfirst
-  let w := walkBelow (storageOps fuel) e fuel ((storageOps fuel).first c1) none
-  have hwkey : w.2 = match ((mergeSpec srcs).takeWhile (fun x => ltB x.1 e)).getLast? with
+  -- the start of the walk shows the merged entries ≥ lo
+  let c0 := rangeStart (storageOps fuel) lo h
+  have hO0 : c0.srcs.map (·.es) = srcs := by
+    show (rangeStart (storageOps fuel) lo h).srcs.map (·.es) = srcs
+    cases lo with
+    | none => simp only [rangeStart]; rw [first_es]; exact hO
+    | some l => simp only [rangeStart]; rw [seek_es]; exact hO
+  have hstart : ∃ W0, Emits (storageOps fuel) c0 W0 ∧ W0.length ≤ fuel ∧ (∀ x ∈ W0, x.1 ≠ []) ∧
+      W0.takeWhile (fun x => ltB x.1 e) = (mergeSpec srcs).filter (fun x => inRange lo (some e) x.1) := by
+    cases lo with
+    | none =>
+      have he := storage_first_emits srcs fuel (total srcs + 1) h hO (by omega) (by omega)
+      rw [mergeRun_eq_mergeSpec hok (Nat.lt_succ_self _)] at he
+      refine ⟨mergeSpec srcs, he, by omega, hne, ?_⟩
+      have := takeWhile_inRange_none hasc (some e)
+      simpa [inRange] using this
+    | some l =>
+      have he := storage_seek_collect srcs hok fuel (total srcs + 1) h hO l (by omega) (by omega)
+      have hl := List.length_filter_le (fun x : KV => !ltB x.1 l) (mergeSpec srcs)
+      refine ⟨_, he, by omega, fun x hx => hne x (List.mem_filter.mp hx).1, ?_⟩
+      rw [← takeWhile_inRange_some hasc l (some e)]
+      apply takeWhile_congr_mem
+      intro x hx
+      have hx' : ltB x.1 l = false := by simpa using (List.mem_filter.mp hx).2
+      simp [inRange, hx']
+  obtain ⟨W0, hW0, hW0len, hW0ne, hT⟩ := hstart
+  let w := walkBelow (storageOps fuel) e fuel c0 none
+  have hwkey : w.2 = match (W0.takeWhile (fun x => ltB x.1 e)).getLast? with
       | some x => some x.1
-      | none => none := walkBelow_key (storageOps fuel) e _ fuel _ none hfirst (by omega)
+      | none => none := walkBelow_key (storageOps fuel) e W0 fuel c0 none hW0 hW0len hW0ne
   have hOw : w.1.srcs.map (·.es) = srcs :=
-    walkBelow_inv (storageOps fuel) e (fun c => c.srcs.map (·.es) = srcs) (fun c hc => by rw [next_es]; exact hc) fuel _ none
-      (by rw [first_es]; exact hO1)
-  have hT : (mergeSpec srcs).takeWhile (fun x => ltB x.1 e) = (mergeSpec srcs).filter (fun x => ltB x.1 e) := by
-    have := takeWhile_inRange_none hasc (some e)
-    simpa [inRange] using this
+    walkBelow_inv (storageOps fuel) e (fun c => c.srcs.map (·.es) = srcs) (fun c hc => by rw [next_es]; exact hc) fuel c0 none hO0
   have hlast : h' = match w.2 with
       | some lk => ((storageOps fuel).seek w.1 lk).1
-      | none => (storageOps fuel).first w.1 := by
+      | none => w.1 := by
     show (boundedOps (storageOps fuel) lo (some e) fuel).last h = _
-    rw [bounded_last_eq, hv1, hk1]
-    simp only [beq_self_eq_true, Bool.and_self, if_true]
-    rfl
+    rw [bounded_last_eq]
   generalize hM : mergeSpec srcs = M at *
-  rw [hT] at hwkey
-  cases hg : (M.filter (fun x => ltB x.1 e)).getLast? with
+  cases hg : (M.filter (fun x => inRange lo (some e) x.1)).getLast? with
   | none =>
-    -- no key below the bound: the iterator is rewound to the first key, which is not below the bound
-    rw [hg] at hwkey
-    rw [hwkey] at hlast
+    -- nothing in range: the walk does not move, and the start position is not below the bound (or exhausted)
+    have hemp : W0.takeWhile (fun x => ltB x.1 e) = [] := by rw [hT]; exact List.getLast?_eq_none_iff.mp hg
+    have hstay : w = (c0, none) := walkBelow_stay (storageOps fuel) e W0 fuel c0 none hW0 hemp
+    rw [hstay] at hlast
     simp only at hlast
-    have hemp : M.filter (fun x => ltB x.1 e) = [] := List.getLast?_eq_none_iff.mp hg
-    have hfw := storage_first_emits srcs fuel (total srcs + 1) w.1 hOw (by omega) (by omega)
-    rw [mergeRun_eq_mergeSpec hok (Nat.lt_succ_self _), hM] at hfw
-    have hb := bounded_head (storageOps fuel) lo (some e) fuel _ M hfw
+    have hb := bounded_head (storageOps fuel) lo (some e) fuel c0 W0 hW0
     rw [← hlast] at hb
     rw [show B = boundedOps (storageOps fuel) lo (some e) fuel from rfl, hb]
-    have hnone : M.filter (fun x => inRange lo (some e) x.1) = [] := by
-      rw [List.filter_eq_nil_iff]
-      intro x hx
-      have := (List.filter_eq_nil_iff.mp hemp) x hx
-      cases lo <;> simp [inRange, this]
-    rw [hnone]
-    cases hh : M.head? with
+    cases hh : W0.head? with
     | none => rfl
     | some m =>
-      have hm : m ∈ M := List.mem_of_head? hh
-      have := (List.filter_eq_nil_iff.mp hemp) m hm
-      simp only [Option.filter, List.getLast?_nil]
-      cases lo <;> simp [inRange, this]
+      have hm : ltB m.1 e = false := by
+        cases W0 with
+        | nil => simp at hh
+        | cons a t =>
+          simp only [List.head?_cons, Option.some.injEq] at hh
+          subst hh
+          cases hp : ltB a.1 e with
+          | false => rfl
+          | true => simp [hp] at hemp
+      simp only [Option.filter]
+      cases lo <;> simp [inRange, hm]
   | some x =>
-    rw [hg] at hwkey
+    rw [hT, hg] at hwkey
     rw [hwkey] at hlast
     simp only at hlast
-    have hxT : x ∈ M.filter (fun x => ltB x.1 e) := List.mem_of_getLast? hg
+    have hxT : x ∈ M.filter (fun x => inRange lo (some e) x.1) := List.mem_of_getLast? hg
     have hxM : x ∈ M := (List.mem_filter.mp hxT).1
-    have hxe : ltB x.1 e = true := (List.mem_filter.mp hxT).2
-    -- x dominates every key below the bound
-    have hdom : ∀ y ∈ M, ltB y.1 e = true → ltB x.1 y.1 = false := by
-      intro y hy hye
-      have hyT : y ∈ M.filter (fun x => ltB x.1 e) := List.mem_filter.mpr ⟨hy, hye⟩
-      obtain ⟨ys, hys⟩ := List.getLast?_eq_some_iff.mp hg
-      rw [hys] at hyT
-      have hascT : Asc (ys ++ [x]) := by rw [← hys]; exact filter_asc hasc _
-      rcases List.mem_append.mp hyT with hy' | hy'
-      · exact ltB_asymm ((List.pairwise_append.mp hascT).2.2 y hy' x (by simp))
-      · simp only [List.mem_singleton] at hy'; subst hy'; exact ltB_irrefl _
+    have hxr : inRange lo (some e) x.1 = true := (List.mem_filter.mp hxT).2
     have hsw := storage_seek_collect srcs hok fuel (total srcs + 1) w.1 hOw x.1 (by omega) (by omega)
     rw [hM] at hsw
     have hb := bounded_head (storageOps fuel) lo (some e) fuel _ _ hsw
     rw [← hlast, head_filter_ge hasc hxM] at hb
     rw [show B = boundedOps (storageOps fuel) lo (some e) fuel from rfl, hb]
-    by_cases hr : inRange lo (some e) x.1 = true
-    · simp only [Option.filter, hr, if_true]
-      symm
-      apply getLast?_of_max (filter_asc hasc _) (List.mem_filter.mpr ⟨hxM, hr⟩)
-      intro y hy
-      have hy' := List.mem_filter.mp hy
-      have hye : ltB y.1 e = true := by
-        have := hy'.2
-        cases lo <;> simp [inRange] at this <;> simp [this]
-      exact hdom y hy'.1 hye
-    · have hr' : inRange lo (some e) x.1 = false := by simpa using hr
-      simp only [Option.filter, hr', Bool.false_eq_true, if_false]
-      symm
-      rw [List.getLast?_eq_none_iff, List.filter_eq_nil_iff]
-      intro y hy
-      cases lo with
-      | none => simp [inRange, hxe] at hr'
-      | some l =>
-        have hxl : ltB x.1 l = true := by simpa [inRange, hxe] using hr'
-        cases hye : ltB y.1 e with
-        | false => simp [inRange, hye]
-        | true =>
-          have := ltB_of_le_of_lt (hdom y hy hye) hxl
-          simp [inRange, this]
+    simp [Option.filter, hxr]
+
+/-- (d) SeekToLast of the range iterator, all bounds -/
+theorem bounded_last_full (srcs : List (List KV)) (hok : SourcesOK srcs) (hne : ∀ x ∈ mergeSpec srcs, x.1 ≠ [])
+    (lo hi : Option Bytes) (fuel : Nat) (h : Hier) (hO : h.srcs.map (·.es) = srcs) (hk : ∀ s ∈ h.srcs, s.kind = .mem)
+    (hf : total srcs + 1 ≤ fuel) :
+    let B := bOps lo hi fuel
+    let h' := B.last h
+    (if B.valid h' then some (B.k h', B.val h') else none) =
+      ((mergeSpec srcs).filter (fun x => inRange lo hi x.1)).getLast? := by
+  cases hi with
+  | none => exact bounded_last_noend srcs hok lo fuel h hO hk
+  | some e => exact bounded_last_end srcs hok hne lo e fuel h hO hf
 
 end Kevo.Proofs.Merge
